@@ -236,6 +236,14 @@ def sweep(ctx, exe, st, n_small, shipped, variants, per=60):
     from concurrent.futures import ProcessPoolExecutor
     t0 = time.time()
     big = shipped_cases(ctx, shipped, variants) if shipped else []
+    # corpus: recipes of past false alarms / disagreements, always run first
+    import glob
+    corpus = []
+    for f in sorted(glob.glob(os.path.join(vf.VERIF, 'corpus', 'C04', '*.json'))):
+        rec = json.load(open(f))['recipe']
+        geo, bm = L.build_geo(rec, ctx.repo)
+        corpus.append((rec, geo, bm))
+    if corpus: check_batch(ctx, exe, st, corpus, 'corpus')
     rounds = []
     left = n_small
     while left > 0:
